@@ -21,7 +21,9 @@ Areas == {<<32, 8, 8, 40>>,                      \* around the first queries
           <<YMax, 40, YMax - 9, 100>>,           \* south polar
           <<22, 20, 21, 21>>,                    \* tiny
           <<8, 8, 32, 40>>,                      \* south > north: clears the cache
-          <<40, 16, 16, 16>>}                    \* east = west: full circle
+          <<40, 16, 16, 16>>,                    \* east = west: full circle
+          <<24, 8, 24, 40>>,                     \* south = north on a grid line: NOT empty (only south > north is)
+          <<21, 8, 21, 40>>}                     \* south = north inside a cell row
 
 Ops == {<<"h", q[1], q[2]>> : q \in Queries} \cup {<<"ca", a[1], a[2], a[3], a[4]>> : a \in Areas} \cup {<<"call">>, <<"cc">>}
 
@@ -34,7 +36,9 @@ NextCached(c, op) ==
 
 InChunk(S, C) == {x \in S : x % NChunks = C}
 LatX == {x \in -8..(XPer + 8) : x % Stride = 0 \/ x % 8 = 0}
-LatY == {y \in 0..YMax : y % Stride = 0 \/ y % 8 = 0}
+LatY == {y \in 0..YMax : (y % Stride = 0 \/ y % 8 = 0) /\ (Kind = "ppoly" => y <= 8 \/ y >= YMax - 8)}
+\* command-line tool (GeoidEval): positions = the query positions, heights to convert in quarter metres
+ToolHQ == {0, -37, 401, 35999}
 
 Init == hist = <<>> /\ cached = (IF TS THEN "all" ELSE "none") /\ v = <<"root">>
 Next ==
@@ -44,6 +48,8 @@ Next ==
      /\ \E c \in 0..(NChunks - 1) : v' = <<"chunk", c>>
   \/ /\ Part = "lat" /\ v[1] = "chunk" /\ UNCHANGED <<hist, cached>>
      /\ \E x \in InChunk(LatX, v[2]), y \in LatY : v' = <<"q", x, y>>
+  \/ /\ Part = "tool" /\ v = <<"root">> /\ UNCHANGED <<hist, cached>>
+     /\ \E q \in Queries, k \in ToolHQ : v' = <<"t", q[1], q[2], k>>
 
 (* ----- model invariants: the documented properties of bilinear interpolation ----- *)
 BilinearInv ==
@@ -64,8 +70,21 @@ BilinearInv ==
            S == {RawVal(ix, iy), RawVal(ix + 1, iy), RawVal(ix, iy + 1), RawVal(ix + 1, iy + 1)}
        IN \A s \in S : (\A t \in S : s <= t) => 64 * s <= H64(x, y)
 
+\* "ppoly": in the polar cell rows every point of the documented 12-point stencil (rows iy-1..iy+2, columns ix-1..ix+2
+\* without the corners; the row beyond the pole by the documented reflection) carries the value of ONE cubic PQ(u, d),
+\* and PQ512 is that cubic at the query position (checked at the nodes, where it must be 512 times the pixel)
+PPolyInv ==
+  v[1] = "q" /\ Kind = "ppoly" /\ PolarInterior(v[2], v[3]) =>
+    LET ix == CellX(v[2])  iy == CellY(v[3])
+        u0 == (ix % Wh) - Wq   sg == IF ix < Wh THEN 1 ELSE -1
+        D(row) == IF iy = 0 THEN row ELSE (H - 1) - row
+    IN /\ \A dx \in -1..2, dy \in -1..2 :
+            (dx \in {0, 1} \/ dy \in {0, 1}) => RawVal(ix + dx, iy + dy) = PQ(u0 + dx, sg * D(iy + dy))
+       /\ (v[2] % 8 = 0 /\ v[3] % 8 = 0 => PQ512(v[2], v[3]) = 512 * RawVal(v[2] \div 8, v[3] \div 8))
+       /\ (v[3] = 0 \/ v[3] = YMax => PQ512(v[2], v[3]) = 512 * 30000)     \* independent of longitude at the pole
+
 \* pixel values fit the file format
-PixInv == v[1] = "q" => LET p == RawVal(CellX(v[2]), CellY(v[3])) IN p >= 0 /\ p <= 65535
+PixInv == v[1] = "q" => LET p == RawVal(CellX(v[2]), CellY(v[3])) IN p >= 0 /\ p <= 65535 /\ (Kind = "ppoly" => W % 4 = 0 /\ H >= 9)
 
 \* history invariants: the cache flag is determined by the last cache operation
 HistInv ==
@@ -76,5 +95,5 @@ HistInv ==
 
 Emit ==
   /\ (Part = "hist" /\ Len(hist) = Depth => PrintT(ToJson(<<"hist", hist>>)))
-  /\ (v[1] = "q" => PrintT(ToJson(v)))
+  /\ (v[1] \in {"q", "t"} => PrintT(ToJson(v)))
 =============================================================================
